@@ -17,6 +17,7 @@ import Proofs.Lemmas.C15Luhn
 import Proofs.Lemmas.C15Order
 import Proofs.Lemmas.C15Sets
 import Proofs.C16
+import Proofs.Lemmas.C15Messages
 namespace Flatland.C15.Proofs
 open Flatland.C16 Flatland.C15 Flatland.C15.Spec
 
@@ -736,6 +737,29 @@ theorem messages (table : List BuiltinMsg) (v : V) (e : View) (errors : List Str
               obtain ⟨u, text, segs, hp, hs⟩ :=
                 Flatland.C16.Proofs.expandMessage_ok_expansion _ _ _ hx
               exact Or.inr ⟨s, u, text, segs, rfl, addError_spec errors s, hp, hs⟩
+
+/-- **exactly one message on failure**: in scope of the documentation, a false verdict always
+    completes and leaves the error list extended by exactly one fully expanded message (or
+    unchanged if that very text was already recorded) -/
+theorem false_verdict_records_one (v : V) (e : View) (errors : List Str) (hs : InScope v e)
+    (hd : documented v e = some false) :
+    ∃ o s, run v e errors = .ok o ∧ o.verdict = false ∧ o.value = valueAfter v e ∧
+      (o.errors = errors ∨ o.errors = (if s ∈ errors then errors else errors ++ [s])) := by
+  obtain ⟨note, hv, hiff⟩ := decides_partial v e false hs hd
+  cases note with
+  | none => exact absurd (hiff.2 rfl) (by simp)
+  | some n =>
+    obtain ⟨o, ho, hb⟩ := messages_total v e errors false n hv
+    obtain ⟨note', hv', hval, _, hsome⟩ := messages _ v e errors o ho
+    rw [hv] at hv'
+    have hn : note' = some n := by
+      have := hv'
+      simp only [Except.ok.injEq, Prod.mk.injEq] at this
+      exact this.2.symm
+    obtain ⟨msg, _, hcase⟩ := hsome n hn
+    rcases hcase with ⟨_, herr⟩ | ⟨s, _, _, _, _, herr, _, _⟩
+    · exact ⟨o, [], ho, hb, hval, Or.inl herr⟩
+    · exact ⟨o, s, ho, hb, hval, Or.inr herr⟩
 
 /-- a true verdict records nothing (corollary of `messages` + the note/verdict link) -/
 theorem true_verdict_records_nothing (table : List BuiltinMsg) (v : V) (e : View)
